@@ -1,4 +1,3 @@
-(* WIP *)
 (* C12 — Messages on one topic from one publisher arrive in publish order (same subscriber, same QoS), including
    messages held back by flow control and messages resent after reconnection.
    Statements only.  Model: Session/Inflight.v — GetAll's sort.Slice by uint16(Created) with the order among equal
